@@ -176,7 +176,14 @@ func runC09(c *eng.Ctx) {
 			for i, s := range muts {
 				st := s.Instr.(*ssa.Store)
 				fa := st.Addr.(*ssa.FieldAddr)
-				c.Check(eng.DerivesFromCall(fa.X, res.Instr.(ssa.Value), 0) && eng.OnlyFromCall(fa.X, res.Instr.(ssa.Value)), fmt.Sprintf("mutates-resolved-object[%d]", i), s.Instr, f,
+				obj := fa.X
+				if s.Instr.Parent() != f {
+					// the find-or-append half sits in a helper that is handed the schema: judged by what this function passes
+					if v := eng.UpParamVia(f, s, eng.Unwrap(obj)); v != nil {
+						obj = v
+					}
+				}
+				c.Check(eng.DerivesFromCall(obj, res.Instr.(ssa.Value), 0) && eng.OnlyFromCall(obj, res.Instr.(ssa.Value)), fmt.Sprintf("mutates-resolved-object[%d]", i), s.Instr, f,
 					"the schema that receives the new entry is the object resolved from the container under the lock, not a copy fetched before locking", "mutated object is "+p.Desc(fa.X))
 				okh, why := ls.SameHold(res.Instr, s.Instr, mssMu, true)
 				c.Check(okh, fmt.Sprintf("resolve-and-mutate-one-hold[%d]", i), s.Instr, f, "resolution and mutation are in one write hold", why)
@@ -427,6 +434,14 @@ func runC09(c *eng.Ctx) {
 					in, ok := eng.Unwrap(v).(ssa.Instruction)
 					return ok && eng.LoadField(kvsT+".snapshot")(p, in)
 				}, func(d string, _ ssa.Value) bool { return strings.Contains(d, "napshot") })
+				if len(cur) == 0 {
+					// the comparison may sit in a predicate helper (isCurrentSnapshot(x)): the Add lies on its equal-edge
+					for _, e := range snapshotSameEdges(p, fn, func(v ssa.Value) bool { return strings.Contains(p.Desc(v), "napshot") }) {
+						if eng.DominatedByEdge(fn, a.Instr, e) {
+							cur = append(cur, eng.Fact{})
+						}
+					}
+				}
 				c.Check(held && len(cur) > 0, fmt.Sprintf("cached-under-lock-from-current-snapshot:%s[%d]", p.FuncKey(fn), n), a.Instr, fn,
 					"a bucket read from a snapshot is added to bucketCache only in a hold of the store lock in which that snapshot was compared equal to s.snapshot: Flush installs the new snapshot and purges the cache in one write hold, so a bucket of the OLD snapshot added after the purge would answer later lookups for names the flush moved to disk with 'absent' — and they are created a second time",
 					fmt.Sprintf("store lock held: %v; facts: %s", held, strings.Join(facts.Render(fs), " ; ")))
@@ -947,30 +962,13 @@ func gocCreateValue(c *eng.Ctx) {
 			fmt.Sprintf("hit edges %d, generator reachable from a hit: %v", len(hit), hitReaches))
 	}
 	// a flush that completed between lookup and lock moved entries to the persisted store
-	var cmp *ssa.If
-	for _, b := range eng.BlocksT(f) {
-		if len(b.Instrs) == 0 {
-			continue
-		}
-		if ifi, ok := b.Instrs[len(b.Instrs)-1].(*ssa.If); ok {
-			if bo, ok := ifi.Cond.(*ssa.BinOp); ok && (bo.Op == token.NEQ || bo.Op == token.EQL) {
-				dx, dy := p.Desc(bo.X), p.Desc(bo.Y)
-				if (strings.HasSuffix(dx, ".snapshot") && dy == "lookupSnapshot") || (strings.HasSuffix(dy, ".snapshot") && dx == "lookupSnapshot") {
-					cmp = ifi
-				}
-			}
-		}
-	}
-	if cmp == nil {
+	sameEdges := snapshotSameEdges(p, f, func(v ssa.Value) bool { return p.Desc(v) == "lookupSnapshot" })
+	if len(sameEdges) == 0 {
 		c.Check(false, "recheck:persisted-after-flush", gen.Instr, f,
 			"when the store's snapshot changed since the caller's lookup (a flush completed), the persisted bucket is looked up again under the lock",
 			"no comparison of s.snapshot with the lookup snapshot")
 	} else {
-		bo := cmp.Cond.(*ssa.BinOp)
-		same := eng.Edge{B: cmp.Block(), Succ: 1}
-		if bo.Op == token.EQL {
-			same = eng.Edge{B: cmp.Block(), Succ: 0}
-		}
+		same := sameEdges[0]
 		get := p.Sites(f, eng.CallTo("index/model.TrieBucket.GetValue"))
 		_, skip := eng.PathExists(eng.PathQuery{Fn: f, Target: func(in ssa.Instruction) bool { return in == gen.Instr },
 			Blocked: func(in ssa.Instruction) bool { return instrIn(in, get) }, Edge: func(b *ssa.BasicBlock, s int) bool {
@@ -980,7 +978,7 @@ func gocCreateValue(c *eng.Ctx) {
 				}
 				return !isNilBucketEdge(p, b, s)
 			}})
-		c.Check(len(get) > 0 && !skip, "recheck:persisted-after-flush", cmp, f,
+		c.Check(len(get) > 0 && !skip, "recheck:persisted-after-flush", same.B.Instrs[len(same.B.Instrs)-1], f,
 			"when the snapshot changed and the bucket exists, the generator is reached only after bucket.GetValue(key) missed", "a path with a changed snapshot skips the persisted lookup")
 		for i, g := range get {
 			miss := facts.Find(facts.At(gen.Instr), "false", func(_ string, v ssa.Value) bool { return extractIs(v, g.Instr.(ssa.Value), 1) }, nil)
@@ -1002,9 +1000,11 @@ func gocCreateValue(c *eng.Ctx) {
 		// the caller captures the snapshot BEFORE its memory lookup
 		g := c.Fn(kvsT + ".getOrCreateValue")
 		call := c.One(g, eng.CallTo(kvsT+".createValue"), "createValue call")
-		snapArg := eng.CallArgs(call.Instr.(*ssa.Call))[2]
-		sn, ok := snapArg.(*ssa.Call)
-		okSnap := ok && inList(strings.Join(p.CalleeKeys(sn), ""), []string{kvsT + ".getSnapshot"})
+		snapArg, sn := lookupSnapshotOf(c)
+		okSnap := sn != nil
+		if sn == nil {
+			sn = call.Instr
+		}
 		memLook := c.Some(g, eng.Any(eng.CallTo(kvsT+".GetValueFromMem"), eng.CallTo(kvsT+".getValueFromMem")), "memory lookup")
 		c.Check(okSnap && eng.DominatedBy(g, memLook[0].Instr, []eng.Site{{Fn: g, Instr: sn}}, nil), "lookup-snapshot-taken-first", call.Instr, g,
 			"the snapshot handed to createValue is captured before the memory lookup (so a flush completing during the lookup is detected)", "snapshot argument is "+p.Desc(snapArg))
